@@ -360,7 +360,7 @@ pub struct BadTokCase {
 
 pub struct BadToken;
 impl BadToken {
-    fn render(c: &BadTokCase) -> (String, usize, usize) {
+    pub fn render(c: &BadTokCase) -> (String, usize, usize) {
         let mut p = Printer::new(Style::canonical());
         p.module(&c.m);
         let toks = p.toks;
@@ -444,7 +444,7 @@ impl Prop for BadToken {
 }
 
 pub fn props() -> Vec<Box<dyn DynProp>> {
-    vec![Box::new(PrintParse), Box::new(ParsePrintParse), Box::new(BadToken)]
+    vec![Box::new(PrintParse), Box::new(ParsePrintParse), Box::new(BadToken), Box::new(FuzzTexts { cases: vec![] })]
 }
 
 pub fn run(ctx: &mut Ctx) {
@@ -452,4 +452,42 @@ pub fn run(ctx: &mut Ctx) {
     ctx.run(&PrintParse, &Params::new(if q { 150_000 } else { 3_000_000 }, 40, 1500));
     ctx.run(&ParsePrintParse, &Params::new(if q { 80_000 } else { 2_000_000 }, 40, 1200));
     ctx.run(&BadToken, &Params::new(if q { 40_000 } else { 1_000_000 }, 20, 800));
+    if !q && ctx.violations.is_empty() {
+        let secs: u64 = std::env::var("PV_FUZZ_SECS").ok().and_then(|s| s.parse().ok()).unwrap_or(600);
+        match crate::checks::c12::fuzz_campaign("parse_roundtrip", secs) {
+            Err(e) => ctx.notes.push(format!("libFuzzer campaign did not run (inconclusive, not a violation): {}", e.chars().take(300).collect::<String>())),
+            Ok((arts, log)) => {
+                let summary = log.lines().filter(|l| l.contains("cov:") || l.contains("fuzzed for") || l.contains("artifacts")).collect::<Vec<_>>().join(" | ");
+                ctx.notes.push(format!("libFuzzer parse_roundtrip: {summary}"));
+                ctx.extra.insert("libfuzzer_artifacts".into(), serde_json::json!(arts.len()));
+                let cases: Vec<TextCase> = arts.iter().filter_map(|(_, b)| std::str::from_utf8(b).ok().map(|t| TextCase { text: t.to_string() })).collect();
+                if !cases.is_empty() {
+                    ctx.run(&FuzzTexts { cases }, &Params::new(0, 0, 0));
+                }
+            }
+        }
+    }
+}
+
+/// Crashing inputs of the libFuzzer target parse_roundtrip, re-judged through ParsePrintParse's oracle.
+pub struct FuzzTexts {
+    pub cases: Vec<TextCase>,
+}
+impl Prop for FuzzTexts {
+    type Case = TextCase;
+    fn name(&self) -> String {
+        "C18/libfuzzer".into()
+    }
+    fn rule(&self) -> String {
+        "coverage-guided byte-level search (libFuzzer target parse_roundtrip: text -> parse -> canonical print -> parse, the target aborts when the oracle of C18/parse-print-parse fails); every input the campaign leaves behind is re-judged here".into()
+    }
+    fn gen(&self, _t: &mut Tape) -> TextCase {
+        unreachable!()
+    }
+    fn judge(&self, c: &TextCase) -> Outcome {
+        ParsePrintParse.judge(c)
+    }
+    fn fixed_cases(&self) -> Vec<TextCase> {
+        self.cases.clone()
+    }
 }
